@@ -175,6 +175,25 @@ func runC11(w *fw.Worker) {
 			w.Case(src, func() *fw.Violation { w.Nontrivial(); return c11StringStore(src) })
 		}
 	}
+	for _, src := range c11NestedStringStores {
+		src := src
+		w.Case(src, func() *fw.Violation { w.Nontrivial(); w.Count("nested-string-store", 1); return c11StringStore(src) })
+	}
+}
+
+// c11NestedStringStores are string element stores reached through containers; each is a static error.
+var c11NestedStringStores = []string{
+	"ws := [\"ab\" \"cd\"]\nws[0][1] = \"x\"\nprint ws\n",
+	"ws := [\"ab\" \"cd\"]\nws[-1][0] = \"x\"\nprint ws\n",
+	"m := {k:\"ab\"}\nm.k[0] = \"x\"\nprint m\n",
+	"m := {k:\"ab\"}\nm[\"k\"][0] = \"x\"\nprint m\n",
+	"n := [[\"ab\"]]\nn[0][0][1] = \"x\"\nprint n\n",
+	"mm := {a:[\"ab\"]}\nmm.a[0][0] = \"x\"\nprint mm\n",
+	"am := [{k:\"ab\"}]\nam[0].k[1] = \"x\"\nprint am\n",
+	"s := \"ab\"\ns[-1] = \"x\"\nprint s\n",
+	"s := \"ab\"\ni := 1\ns[i] = \"x\"\nprint s\n",
+	"func f ws:[]string\n    ws[0][0] = \"x\"\nend\nf [\"ab\"]\n",
+	"for w := range [\"ab\"]\n    w[0] = \"x\"\nend\n",
 }
 
 func c11StringStore(src string) *fw.Violation {
